@@ -12,7 +12,8 @@
        "T"   ASCII tab / LF / CR          (removed everywhere before parsing)
        "S"   space         "C"   another C0 control        (stripped at both ends only)
        "H"   the letters  http        "Hs"  the letters  https
-       "l"   localhost     "i"  127.0.0.1     "a"  the allowlisted host name     "e"  a foreign host name
+       "l"   localhost     "i"  127.0.0.1     "a"  the operator's own (custom) host name     "e"  a foreign host name
+       "d"   the host name of the library's BUILT-IN default return origin (used only when no list was configured)
        "x"   some other letters (never completes http->https)    "P"  the service prefix name (letters)
        "6"   the text ::1 (only generated right after "[")
        "8"   the digits 8443          "-"  a hyphen (a host / scheme character like any letter)
@@ -32,14 +33,14 @@ CONSTANTS FlatAlphabet, FlatLen,      \* every string over FlatAlphabet up to Fl
           LeadLen,                    \* every run over LeadSet up to LeadLen between "/" (or "scheme:") and a host name
           BaseScheme                  \* scheme of the service URL the browser resolves against: "H" or "Hs"
 
-AllTokens == {":", "/", "B", "@", "?", "#", ".", "-", "[", "]", "%", "T", "S", "C", "H", "Hs", "l", "i", "a", "e", "x", "P", "8"}
+AllTokens == {":", "/", "B", "@", "?", "#", ".", "-", "[", "]", "%", "T", "S", "C", "H", "Hs", "l", "i", "a", "d", "e", "x", "P", "8"}
 
 Slash      == {"/", "B"}                       \* equivalent for special schemes
 StripSet   == {"S", "C", "T"}                   \* C0 control or space (tab/LF/CR are C0 controls too)
-AlphaStart == {"H", "Hs", "l", "a", "e", "x", "P"}
+AlphaStart == {"H", "Hs", "l", "a", "d", "e", "x", "P"}
 SchemeChar == AlphaStart \cup {"8", "i", ".", "-"}   \* ASCII alphanumeric, "+", "-", "."
 AuthorityEnd == {"/", "B", "?", "#"}           \* for special schemes the backslash ends the authority too
-DomainTok  == {"H", "Hs", "l", "a", "e", "x", "P", ".", "-", "8", "i"}   \* letters, digits, hyphen, dot
+DomainTok  == {"H", "Hs", "l", "a", "d", "e", "x", "P", ".", "-", "8", "i"}   \* letters, digits, hyphen, dot
 
 Min(I) == CHOOSE i \in I : \A j \in I : i <= j
 Max(I) == CHOOSE i \in I : \A j \in I : i >= j
@@ -73,9 +74,8 @@ HostClass(h) ==
   ELSE IF LastLabelNumeric(h) THEN "uncertain"                     \* IPv4 parser: some address, or failure
   ELSE IF ~(\A k \in 1..Len(h) : h[k] \in DomainTok) THEN "uncertain"
   ELSE IF h[1] = "." \/ (\E k \in 1..(Len(h) - 1) : h[k] = "." /\ h[k + 1] = ".") THEN "uncertain"   \* empty label
-  ELSE IF h[Len(h)] = "." THEN (IF Len(h) >= 2 /\ h[Len(h) - 1] \in {"l", "a"} THEN "uncertain" ELSE "domain")
+  ELSE IF h[Len(h)] = "." THEN (IF Len(h) >= 2 /\ h[Len(h) - 1] \in {"l", "a", "d"} THEN "uncertain" ELSE "domain")
   ELSE IF Len(h) >= 2 /\ h[Len(h)] = "l" /\ h[Len(h) - 1] = "." THEN "uncertain"                     \* *.localhost
-  ELSE IF h = <<"a">> THEN "allowhost"
   ELSE "domain"                                                    \* a definite name that is none of ours:
                                                                    \* localhost.evil.example, 127.0.0.1.evil.example, evil-localhost ...
 
@@ -101,7 +101,26 @@ Bracketed(hp) ==
                ELSE IF Len(inside) >= 3 /\ Len(inside) <= 13 /\ inside[1] = "6" /\ Groups(From(inside, 2)) THEN "foreign"
                ELSE "uncertain"
 
-\* al: which origin the deployment allowlists -- "noport": https://<a>   "port": https://<a>:8443
+(* THE ALLOWLIST CONFIGURATION.  What the deployment passed as allowed_return_origins decides which origins besides
+   loopback may receive a redirect.  The built-in default origin https://<d> counts ONLY when nothing was configured
+   ("default" = None); an explicit list -- even the empty one -- replaces it.
+     "default"   None                       -> { https://<d> }
+     "empty"     frozenset()                -> { }                      loopback only
+     "noport"    { https://<a> }            "port"  { https://<a>:8443 }
+     "both"      { https://<a>, https://<d> }        the default origin listed explicitly
+     "lookalike" { https://<a>.<e> }        the operator really owns a name that merely starts like <a>; <a> itself is NOT listed
+     "http_a"    { http://<a> }             a plain-http origin
+     "slash" { "https://<a>/" }  "upper" { "HTTPS://<A>" }   sloppy spellings of https://<a>: read GENEROUSLY (as "noport"),
+                                            so that honouring them or not are both admissible under the one-sided oracle   *)
+AllCfgs == {"default", "empty", "noport", "port", "both", "lookalike", "http_a", "slash", "upper"}
+AllowList(al) ==
+  CASE al = "default"   -> {<<"Hs", <<"d">>, "default">>}
+    [] al = "empty"     -> {}
+    [] al \in {"noport", "slash", "upper"} -> {<<"Hs", <<"a">>, "default">>}
+    [] al = "port"      -> {<<"Hs", <<"a">>, "p8443">>}
+    [] al = "both"      -> {<<"Hs", <<"a">>, "default">>, <<"Hs", <<"d">>, "default">>}
+    [] al = "lookalike" -> {<<"Hs", <<"a", ".", "e">>, "default">>}
+    [] al = "http_a"    -> {<<"H", <<"a">>, "default">>}
 Origin(scheme, hp, al) ==
   LET c  == FirstIn(hp, {":"})
       h  == IF c = 0 THEN hp ELSE SubSeq(hp, 1, c - 1)
@@ -112,7 +131,7 @@ Origin(scheme, hp, al) ==
      ELSE IF hc = "failure" \/ pc = "failure" THEN "failure"
      ELSE IF hc = "uncertain" THEN "uncertain"
      ELSE IF hc = "loopback" THEN "loopback"
-     ELSE IF hc = "allowhost" /\ scheme = "Hs" /\ ((al = "noport" /\ pc = "default") \/ (al = "port" /\ pc = "p8443")) THEN "allowed"
+     ELSE IF <<scheme, h, pc>> \in AllowList(al) THEN "allowed"
      ELSE "foreign"
 
 \* authority state .. host state .. port state, entered with every leading slash already skipped
@@ -169,7 +188,7 @@ RtSeeds == { <<"H", ":", "/", "/", "l", ":", "8", "/", "x", "?", "x", "#", "x">>
 OrigSeeds == { <<"/", "P", "/", "x", "?", "x">>, <<"/", "x", "/", "x", "?", "x", "#", "x">>, <<"/", "P">> }
 
 RtPrefixes == {<<sc, ":", a, b>> : sc \in PrefixSchemes, a \in PrefixSlashes, b \in PrefixSlashes}
-RtCfgs   == {"noport", "port"}     \* which origin the deployment allowlists
+RtCfgs   == {"noport", "port"}     \* the two configurations every (large) string family is crossed with
 OrigCfgs == {"root", "vgi"}        \* the service prefix: "" | "/" \o P
 
 (* role "rt"  : s is a _vgi_return_to value,   cfg \in RtCfgs
@@ -215,9 +234,16 @@ V6Hosts == { <<"[", "6", "]">>, <<"[", "6", ":", "8", "]">>, <<"[", "6", "]", ":
              <<"[", "6", "]", "@", "e">>, <<"[", "e", "]">>, <<"[", "]">>, <<"[", "6", ":", "8", ":", "8", "]">>, <<"[", "6", "]", "B", "@", "e">>,
              <<"[", "6", "]", ":", "e">>, <<"[", "6", "%", "]">> }
 RtV6(d) == Rt({<<sc, ":", "/", "/">> \o h \o t : sc \in {"H", "Hs"}, h \in V6Hosts, t \in {<<>>, <<"/", "x">>}})
-Cases(d) == UNION {RtFlat(d), RtTails(d), RtNeigh(d), RtLead(d), RtHosts(d), RtAuth(d), RtV6(d),
+(* the "configuration x target" family: EVERY allowlist configuration crossed with return targets at the default origin, at
+   the custom origin, at loopback, at a foreign host and at look-alikes of each, with and without userinfo / port / path *)
+TargetHosts == {<<"d">>, <<"a">>, <<"l">>, <<"i">>, <<"e">>, <<"a", ".", "e">>, <<"d", ".", "e">>, <<"e", ".", "d">>, <<"e", ".", "a">>,
+                <<"d", "-", "e">>, <<"a", ".", "d">>}
+RtTargets(d) == {[role |-> "rt", cfg |-> al, s |-> <<sc, ":", "/", "/">> \o ui \o h \o po \o t] :
+                   al \in AllCfgs, sc \in {"H", "Hs"}, ui \in {<<>>, <<"e", "@">>, <<"d", "@">>, <<"a", "@">>}, h \in TargetHosts,
+                   po \in {<<>>, <<":", "8">>}, t \in {<<>>, <<"/", "x">>}}
+Cases(d) == UNION {RtFlat(d), RtTails(d), RtNeigh(d), RtLead(d), RtHosts(d), RtAuth(d), RtV6(d), RtTargets(d),
                    OrigFlat(d), OrigTails(d), OrigNeigh(d), OrigLead(d)}
-CaseFamilies == <<"RtFlat", "RtTails", "RtNeigh", "RtLead", "RtHosts", "RtAuth", "RtV6", "OrigFlat", "OrigTails", "OrigNeigh", "OrigLead">>
+CaseFamilies == <<"RtFlat", "RtTails", "RtNeigh", "RtLead", "RtHosts", "RtAuth", "RtV6", "RtTargets", "OrigFlat", "OrigTails", "OrigNeigh", "OrigLead">>
 
 Al(c) == IF c.role = "rt" THEN c.cfg ELSE "noport"
 Expected(c) == [kind |-> Ref(c.s, Al(c))]
